@@ -67,9 +67,16 @@ func (c *Ctx) freshName(name string) string {
 	return n
 }
 
+func (c *Ctx) mkVar(name string, w int) *Term {
+	if c.concrete != nil {
+		return c.tt.Const(w, c.concrete.Vars[name])
+	}
+	return c.tt.Var(name, w)
+}
+
 func (c *Ctx) nondetScalar(nameV Value, kind string, w int) *Term {
 	name := c.freshName(c.nameArg(nameV))
-	t := c.tt.Var(name, w)
+	t := c.mkVar(name, w)
 	c.nondetVars = append(c.nondetVars, nondetVar{name: name, kind: kind, t: t})
 	return t
 }
@@ -92,7 +99,11 @@ func (c *Ctx) choose(name string, n int) int {
 	}
 	i := len(c.choiceLog)
 	pick := 0
-	if i < len(c.presc) {
+	if c.concrete != nil {
+		pick = c.concrete.Choices[name]
+	} else if c.dbgChoices != nil {
+		pick = c.dbgChoices[name]
+	} else if i < len(c.presc) {
 		pick = c.presc[i]
 	} else {
 		// first visit of this choice point: schedule the siblings
@@ -127,7 +138,7 @@ func hNondetChoice(c *Ctx, st *State, fn *ssa.Function, a []Value) (*State, Valu
 func (c *Ctx) symString(name string, n int) *Str {
 	s := &Str{b: make([]*Term, n)}
 	for i := 0; i < n; i++ {
-		s.b[i] = c.tt.Var(fmt.Sprintf("%s[%d]", name, i), 8)
+		s.b[i] = c.mkVar(fmt.Sprintf("%s[%d]", name, i), 8)
 	}
 	return s
 }
@@ -150,7 +161,7 @@ func hNondetStringN(c *Ctx, st *State, fn *ssa.Function, a []Value) (*State, Val
 func hNondetStringU(c *Ctx, st *State, fn *ssa.Function, a []Value) (*State, Value) {
 	name := c.freshName(c.nameArg(a[0]))
 	max := c.intArg(a[1])
-	lt := c.tt.Var(name+".len", 64)
+	lt := c.mkVar(name+".len", 64)
 	st.pc = append(st.pc, c.tt.Bin(OpUle, lt, c.tt.Const(64, uint64(max))))
 	c.nondetVars = append(c.nondetVars, nondetVar{name: name, kind: "strU", strN: max, t: lt})
 	full := c.symString(name, max)
@@ -513,7 +524,7 @@ func hNondetASCII(c *Ctx, st *State, fn *ssa.Function, a []Value) (*State, Value
 	c.nondetVars = append(c.nondetVars, nondetVar{name: name, kind: "str", strN: n})
 	s := &Str{b: make([]*Term, n)}
 	for i := 0; i < n; i++ {
-		s.b[i] = c.tt.Concat(c.tt.Const(1, 0), c.tt.Var(fmt.Sprintf("%s[%d]", name, i), 7))
+		s.b[i] = c.tt.Concat(c.tt.Const(1, 0), c.mkVar(fmt.Sprintf("%s[%d]", name, i), 7))
 	}
 	return st, s
 }
